@@ -679,6 +679,32 @@ def norm_key(s):
     return ' '.join(str(s).split())
 
 
+class _RuleAlias:
+    def __init__(self, ctx, mapping):
+        self._ctx, self._map = ctx, mapping
+
+    def __getattr__(self, name):
+        return getattr(self._ctx, name)
+
+    def _r(self, rule):
+        return self._map.get(rule, rule)
+
+    def ok(self, rule, *a, **k):
+        return self._ctx.ok(self._r(rule), *a, **k)
+
+    def violation(self, rule, *a, **k):
+        return self._ctx.violation(self._r(rule), *a, **k)
+
+    def advisory(self, rule, *a, **k):
+        return self._ctx.advisory(self._r(rule), *a, **k)
+
+    def require(self, cond, rule, *a, **k):
+        return self._ctx.require(cond, self._r(rule), *a, **k)
+
+    def min_instances(self, rule, n):
+        return self._ctx.min_instances(self._r(rule), n)
+
+
 class Ctx:
     def __init__(self, prop, tier, repo):
         self.prop = prop
@@ -747,6 +773,11 @@ class Ctx:
         else:
             self.violation(rule, fi_or_loc, node, what, key=key)
         return bool(cond)
+
+    def alias(self, mapping):
+        """View of this context in which another property's rule functions
+        report under this property's rule ids (premise reuse)."""
+        return _RuleAlias(self, mapping)
 
     def min_instances(self, rule, n):
         got = self.rule_counts.get(rule, 0)
